@@ -415,6 +415,10 @@ func c07ErrorPaths(r *rt.Rec, rng *rand.Rand, wrap func(storage.Store) storage.S
 	add(storage.DefaultLookup, false)
 	add(&storage.LookupOptions{LowerAnchor: &t3, UpperAnchor: &t1, MaxElements: 1, Offset: 9}, false)
 	add(&storage.LookupOptions{Offset: 2}, false) // a page offset without a page size
+	add(&storage.LookupOptions{Offset: -1}, false)
+	add(&storage.LookupOptions{MaxElements: 2, Offset: -3}, false)
+	add(&storage.LookupOptions{MaxElements: -1}, false)
+	add(&storage.LookupOptions{MaxElements: -2, Offset: 1, LatestAnchor: true}, false)
 	add(&storage.LookupOptions{Offset: 1, LatestAnchor: true}, false)
 	add(&storage.LookupOptions{MaxElements: 2, Offset: 1}, false)
 	for _, m := range ref.Methods {
